@@ -277,7 +277,7 @@ def main(replay=None):
         for b in range(nbase):
             m = small_model(rng)
             top = m["info"].get("topology", "?")
-            add(m, "1.1", False, "base:" + top, nprobes=(20 if quick else 60))
+            add(m, "1.1", False, "base:" + top, nprobes=(40 if quick else 200))
             for kind in rng.sample(REDESC[1:], 3 if quick else 6):
                 add(gd.redescribe(m, rng, kind), rng.choice(["1.1", "1.1c"]), False, "redesc:" + kind, nprobes=4)
             add(m, rng.choice(STYLES[2:]), False, "syntax", nprobes=4)
